@@ -15,7 +15,7 @@ package hashprefix
 //vx:note SHA-256 is an uninterpreted function (fresh symbolic 32-byte value per distinct input, so collisions of prefixes and of whole hashes between different names and with database entries are inside); the public-suffix table is a stub returning the last k labels (k in 1..min(labels,4)) and a symbolic ICANN bit; names: labels of 1..2 symbolic ASCII bytes other than '.'
 //vx:note lookup service = harness fake holding a database D of full hashes (bytes 0,1,31 symbolic in quick; 0,1,2,31 in thorough; the names' own hashes are symbolic in all 32 bytes); it answers exactly the members of D whose 2-byte prefix was asked, in lower-case hex, as one TXT RR per hash or all in one RR, next to a non-TXT RR and possibly one malformed string (64 characters with one non-hex character, 62 characters, 128 characters)
 //vx:note Names entry: every shape of name of 1..6 (thorough 1..8) labels, |D| = 1.  Verdict entry: name with 3 hashed names, |D| = 2, every kind of malformed string (thorough: also 4 hashed names with |D| = 3).  Both: one check against a cache that holds nothing
-//vx:note Cache entry: 2 checks (one thorough scenario: 3) sharing a cache fake that never evicts; clock = stub of time.Now, constant within one Check, seconds and nanoseconds symbolic, advancing by a symbolic amount (<= 4 days) between checks; cache time 10 min (thorough scenarios also 0, 1 s, 30 min); the database is replaced by an arbitrary new one exactly when the clock has passed the previous check's time + cache time (every entry that check wrote or used has expired by then), otherwise it stays.  quick: one-label name then the same name or a child, two database hashes sharing their prefix; thorough: four more scenarios (two-label name then its parent, cache time 30 min; cache time 0 with a two-hash database after expiry; three checks of one name, cache time 1 s; unrelated database prefixes with the same or an unrelated name)
+//vx:note Cache entry: 2 checks (one thorough scenario: 3) sharing a cache fake that never evicts; clock = stub of time.Now, constant within one Check, seconds and nanoseconds symbolic, advancing by a symbolic amount (<= 4 days) between checks; cache time 10 min (thorough scenarios also 0, 1 s, 30 min); the database is replaced by an arbitrary new one exactly when the clock has passed the previous check's time + cache time (every entry that check wrote or used has expired by then), otherwise it stays.  quick: one-label name then the same name or a child, two database hashes sharing their prefix; thorough: four more scenarios (two-label name then its parent, cache time 30 min; cache time 0 with a two-hash database after expiry; three checks of one name, cache time 1 s; unrelated database prefixes)
 //vx:note outside: SHA-256 itself, the public-suffix table (ICANN suffixes longer than 4 labels do not exist), cache eviction, upstream errors, upper-case hex in answers, a service that answers hashes that were not asked for, fractional cache times, concurrent checks
 
 import (
@@ -418,7 +418,7 @@ func vxC19Names() {
 	labels := make([]string, n)
 	for i := range labels {
 		ln := 1 + (i+n)%2
-		if vx.Thorough() && i < 2 {
+		if vx.Thorough() && i < 1 {
 			ln = 1 + vx.Choice("labellen", 2)
 		}
 		labels[i] = vxC19Label("host", ln)
@@ -440,14 +440,14 @@ func vxC19Names() {
 // vxC19Verdict: a name with three hashed names against a database of two
 // hashes (a hash that is not asked for has no effect, so smaller databases are
 // included) and every kind of malformed string.  thorough: also the non-hex
-// character at four positions, and a name with four hashed names (five
+// character at the start, and a name with four hashed names (five
 // labels) against three hashes.
 func vxC19Verdict() {
 	vxC19Reset()
 	n, dbsize, kinds := 3, 2, 4
 	positions := []int{62}
 	if vx.Thorough() {
-		positions = []int{62, 0, 1, 63}
+		positions = []int{62, 0}
 		if vx.Choice("wide", 2) == 1 {
 			n, dbsize, kinds = 5, 3, 1
 		}
@@ -498,7 +498,7 @@ func vxC19Cache() {
 			{labels: 2, relations: []int{1}, shared: true, cacheSec: 1800, dbsize2: 1, checks: 2},
 			{labels: 1, relations: []int{0}, shared: true, cacheSec: 0, dbsize2: 2, checks: 2},
 			{labels: 1, relations: []int{0}, shared: true, cacheSec: 1, dbsize2: 1, checks: 3},
-			{labels: 1, relations: []int{0, 4}, shared: false, cacheSec: 600, dbsize2: 1, checks: 2},
+			{labels: 1, relations: []int{0}, shared: false, cacheSec: 600, dbsize2: 1, checks: 2},
 		}[vx.Choice("scenario", 5)]
 	}
 	checks, relations, cacheSec, dbsize2 := sc.checks, sc.relations, sc.cacheSec, sc.dbsize2
